@@ -48,6 +48,7 @@ func C07(ctx *core.Ctx) {
 	ctx.Rule("C07.R3", "unsubscribe reaches workers: the loop's quit channel is closed exactly once on Unsubscribe's success path and the broker subscription is cancelled", 4)
 	ctx.Rule("C07.R4", "ack discipline: a message is acknowledged only on the nil-error edge of the callback", 1)
 	ctx.Rule("C07.R11", "a STOMP subscriber acknowledges off its consuming goroutine (a synchronous Conn.Ack deadlocks with go-stomp's read loop under back-pressure)", 1)
+	ctx.Rule("C07.R14", "a subscriber transport that can be subscribed again arms a fresh quit channel in Subscribe (Unsubscribe closes the previous one)", 2)
 	c07SubjectAgreement(ctx, r)
 	c07SubscriptionIdentity(ctx, r)
 	ctx.Rule("C07.R6", "fresh channels per subscriber transport instance", 4)
@@ -239,6 +240,52 @@ func C07(ctx *core.Ctx) {
 						}
 					}
 				}
+			}
+			if quitField == "" && spawnI != nil {
+				// the quit channel is handed to the worker at the go statement: the field
+				// Subscribe stores that very channel in is what Unsubscribe must close
+				for _, rs := range RecvSites(w) {
+					if !isSignalChan(rs.Chan.Type()) || !rs.InSelect {
+						continue
+					}
+					par, isPar := ssax.Strip(rs.Chan).(*ssa.Parameter)
+					if !isPar {
+						continue
+					}
+					goI := spawnI.(*ssa.Go)
+					for i, q := range w.Params {
+						if q != par || i >= len(goI.Call.Args) {
+							continue
+						}
+						arg := ssax.Strip(goI.Call.Args[i])
+						ssax.Instrs(sub, func(in ssa.Instruction) {
+							if st, ok := in.(*ssa.Store); ok && ssax.Strip(st.Val) == arg {
+								if f := fieldNameOfAddr(st.Addr); f != "" {
+									quitField = f
+								}
+							}
+						})
+					}
+				}
+			}
+			if quitField != "" && spawnI != nil {
+				// ---- R14: a subscription's quit channel is its own ----------------------
+				// Unsubscribe closes it; a transport that lets itself be subscribed again
+				// must arm a new one in Subscribe, before the workers start — otherwise the
+				// second subscription's workers stop at once (Subscribe returns nil,
+				// IsSubscribed is true, and no handler is ever invoked).
+				armed := false
+				ssax.Instrs(sub, func(in ssa.Instruction) {
+					st, ok := in.(*ssa.Store)
+					if !ok || fieldNameOfAddr(st.Addr) != quitField {
+						return
+					}
+					if mk, isMk := ssax.Strip(st.Val).(*ssa.MakeChan); isMk && mk.Parent() == sub && ssax.Dominates(in, spawnI) {
+						armed = true
+					}
+				})
+				ctx.Check(armed, "C07.R14", ssax.Name(sub)+" › arms the quit channel ("+quitField+") of the subscription it starts", r.IPos(spawnI), quitField+" = make(chan …) in Subscribe, before the workers are started",
+					"Unsubscribe closes "+quitField+" and nothing makes a new one: after Subscribe, Unsubscribe, Subscribe on the same transport the workers of the second subscription see the closed channel and return at once — Subscribe reports success, IsSubscribed is true, and the handler is never invoked for any message of the topic")
 			}
 			if quitField == "" {
 				ctx.Violate("C07.R3", wn+" › selects on a quit channel", fnPos(r, w), "the worker loop has no quit/stop channel case: Unsubscribe cannot stop it")
